@@ -66,6 +66,9 @@ pub fn held<S: Strat>(g: usize, second_store: bool) {
     let w = {
         let (c, fil) = (c.clone(), fil.clone());
         rt::spawn(move || {
+            // what goes wrong inside a write (the replaced value dying before the write is done
+            // with it) also counts for C04
+            rt::set_thread_tag("C04");
             let h = prologue(&fil, false);
             rt::quiet(|| rt::barrier(2));
             store(&c, V::new(11));
@@ -687,10 +690,10 @@ pub fn churn_par<S: Strat>() {
 
 /// T0 has exited (its node is cooling down); X and Y, both new to the crate, start at the same
 /// time and race for that node while W stores. Each takes a guard, uses it and lets it go.
-pub fn churn_two<S: Strat>() {
+pub fn churn_two<S: Strat>(with_rcu: bool) {
     // Thread churn is the subject: whatever fails here is (also) a C11 failure, and what is at
     // stake when two threads end up with one node is the protection of their guards (C10).
-    rt::set_context_tag("C11,C10");
+    rt::set_context_tag(if with_rcu { "C11,C06" } else { "C11,C10" });
     let c = Cont::<S>::new(0, V::new(1));
     let fil = filler::<S>();
     let w = {
@@ -700,7 +703,12 @@ pub fn churn_two<S: Strat>() {
             let h = prologue(&fil, false);
             release(h);
             rt::quiet(|| rt::barrier(3));
-            store(&c, V::new(11));
+            if with_rcu {
+                let old = rcu_inc(&c, 2);
+                drop_value(old);
+            } else {
+                store(&c, V::new(11));
+            }
         })
     };
     let t0 = {
@@ -716,15 +724,22 @@ pub fn churn_two<S: Strat>() {
     };
     t0.join();
     let mut hs = Vec::new();
-    for _ in 0..2 {
+    for i in 0..2u64 {
         let c = c.clone();
         hs.push(rt::spawn(move || {
             rt::quiet(|| rt::barrier(3));
             // first use of the crate on this thread, inside the race
-            let g = load(&c);
-            let l = g.peek_label();
-            use_value(&g, l, "guard of a thread that has just claimed its node");
-            drop_guard(g);
+            if with_rcu {
+                let old = rcu_inc(&c, 3 + i);
+                let l = old.peek_label();
+                use_value(&old, l, "rcu result of a thread that has just claimed its node");
+                drop_value(old);
+            } else {
+                let g = load(&c);
+                let l = g.peek_label();
+                use_value(&g, l, "guard of a thread that has just claimed its node");
+                drop_guard(g);
+            }
         }));
     }
     rt::join_all();
@@ -1738,7 +1753,7 @@ pub fn wrap_claim<S: Strat>(fill: bool) {
 /// S{starts inside the race, first use of the crate: store #21, load, load}. If S can claim T's
 /// node while W is still inside it, the help W prepared for T's transaction (value #11, same
 /// generation number as S's second transaction) lands in S's load after S's own store of #21.
-pub fn churn_help<S: Strat>(fill: bool, two: bool) {
+pub fn churn_help<S: Strat>(fill: bool, two: bool, with_cas: bool) {
     let c = Cont::<S>::new(0, V::new(1));
     // `two`: the late thread works on a container of its own; a stale help prepared for the
     // exited thread's load of `c` then delivers a value of `c` to a load of `b` (C12).
@@ -1767,12 +1782,23 @@ pub fn churn_help<S: Strat>(fill: bool, two: bool) {
                     }
                 });
             }
-            // two loads: the second one reuses the generation number the exited thread used last
-            for _ in 0..2 {
-                let g = load(&c);
+            if with_cas {
+                // compare_and_swap against the value this thread has just stored itself: it
+                // must succeed unless W's store came in between (then it returns W's value)
+                let cur = load_full(&c);
+                let g = cas(&c, &cur, V::new(22));
                 let l = g.peek_label();
-                use_value(&g, l, "guard of the late thread");
+                use_value(&g, l, "compare_and_swap result of the late thread");
                 drop_guard(g);
+                drop_value(cur);
+            } else {
+                // two loads: the second one reuses the generation number the exited thread used last
+                for _ in 0..2 {
+                    let g = load(&c);
+                    let l = g.peek_label();
+                    use_value(&g, l, "guard of the late thread");
+                    drop_guard(g);
+                }
             }
             rt::quiet(|| drop(held));
         })
@@ -1798,7 +1824,7 @@ pub fn churn_help<S: Strat>(fill: bool, two: bool) {
         epilogue_p(vec![c, b], fil, vec![], false, "C11,C12");
     } else {
         drop(b);
-        epilogue_p(vec![c], fil, vec![], false, "C11,C03");
+        epilogue_p(vec![c], fil, vec![], false, if with_cas { "C11,C05" } else { "C11,C03" });
     }
 }
 
